@@ -146,8 +146,19 @@ func TestSim(t *testing.T) {
 		if rf.Tape == nil {
 			tape = NewTape(rf.Seed, rf.Run) // replay by seed
 		}
-		r := RunOne(t, tape, sc, RunOpts{Free: *fParallel, Trace: true, TraceKeep: 400, MaxStep: *fMaxStep, Params: params})
+		keep := 400
+		if dump != nil {
+			keep = 0 // the whole trace goes to the dump file
+		}
+		r := RunOne(t, tape, sc, RunOpts{Free: *fParallel, Trace: true, TraceKeep: keep, MaxStep: *fMaxStep, Params: params})
 		addRaces(&r)
+		if dump != nil {
+			for _, l := range r.Trace {
+				dump.WriteString(l)
+				dump.WriteByte('\n')
+			}
+			r.Trace = nil
+		}
 		emit(toLine(r, true))
 		return
 	}
